@@ -39,6 +39,14 @@ def make (c):
             spec = gen.fam_ground (rng, seg_hi = 1 / 18.01)
     gen.add_sources (rng, spec, nmax = 3)
     gen.taper_some (np.random.default_rng ([c ['seed'], 101, c ['i']]), spec, 0.15)
+    # drive levels from microvolts to megavolts (input powers from 1e-15 W up): every relation of the
+    # statement is a ratio, none depends on the level
+    rl = np.random.default_rng ([c ['seed'], 102, c ['i']])
+    if rl.random () < 0.25:
+        k = float (10 ** rl.uniform (-7.5, -4.5)) if rl.random () < 0.7 else float (10 ** rl.uniform (3, 6))
+        for s in spec ['src']:
+            s ['v'] = [s ['v'][0] * k, s ['v'][1] * k]
+        spec ['level'] = k
     gnd  = spec ['media'] is not None
     nth  = int (rng.integers (2, 8))
     nph  = int (rng.integers (2, 9))
